@@ -108,7 +108,7 @@ func newCreateTable(ct sql.CreateTableStmt) *Schema {
 			Column:  c.Name,
 			Type:    c.Type,
 			Null:    c.Null,
-			Default: c.Default,
+			Default: defaultWithAffinity(c.Type, c.Default),
 			Collate: c.Collate,
 			Rowid:   false,
 		}
